@@ -192,10 +192,10 @@ Section C16.
     run parse_float getenv (mkApp (with_spec c (default_spec opts args)) ver) argv.
   Proof.
     destruct c as [n d ld h sp pol ds b act af subs]. cbn [c_spec]. intros -> Hd.
-    unfold run. cbn [a_root a_version with_spec c_spec effective_policy c_policy c_name c_namefield].
-    assert (Hrd : root_decls (mkApp (Cmd n d ld h (default_spec opts args) pol ds b act af subs) ver)
-                  = root_decls (mkApp (Cmd n d ld h [] pol ds b act af subs) ver)) by reflexivity.
-    rewrite Hrd. rewrite <- (do_init_default _ _ _ Hd). reflexivity.
+    unfold run, mkApp. cbn [a_root a_version a_version_last with_spec c_spec effective_policy c_policy c_name c_namefield].
+    assert (Hrd : root_decls (mkAppAt (Cmd n d ld h (default_spec opts args) pol ds b act af subs) ver false)
+                  = root_decls (mkAppAt (Cmd n d ld h [] pol ds b act af subs) ver false)) by reflexivity.
+    rewrite Hrd. unfold mkApp in Hd. rewrite <- (do_init_default _ _ _ Hd). reflexivity.
   Qed.
 
   (** the usage line shows the synthesised spec *)
